@@ -4,6 +4,7 @@ mod rcdirected;
 mod rcrun;
 mod rcworld;
 mod sched;
+mod vectors;
 
 use std::io::Write;
 
@@ -110,6 +111,29 @@ fn main() {
                 ctl.op_hits.iter().map(|(k, v)| format!("\"{}\":{}", k, v)).collect::<Vec<_>>().join(",")
             );
             ctl.quit();
+        }
+        "vectors" => {
+            let kind = sarg(&args, "--kind", "bits");
+            let seed: u64 = arg(&args, "--seed", 1);
+            let n: usize = arg(&args, "--n", 200);
+            let out = sarg(&args, "--out", "rows.ndjson");
+            circ::verif::set_advance_blocked(true);
+            let rows = match kind.as_str() {
+                "bits" => vectors::bits_rows(seed, n),
+                "tagged" => vectors::tagged_rows(seed, n),
+                "api" => vectors::api_rows(),
+                "ptrord" => vectors::ptrord_rows(),
+                "decide" => {
+                    rc_setup();
+                    let mut ctl = rcworld::Ctl::new(2);
+                    let r = rcdirected::decide_rows(&mut ctl);
+                    ctl.quit();
+                    r
+                }
+                _ => Vec::new(),
+            };
+            write_out(&out, &rows);
+            println!("{{\"rows\":{},\"file\":{:?},\"kind\":{:?}}}", rows.len(), out, kind);
         }
         _ => {
             eprintln!("usage: circ-conf rc-random --seed N --n N --threads N --ops N --vocab V --out FILE");
